@@ -642,6 +642,17 @@ def check_c18(case, rec, hash_seeds, rng):
                 ds.get_ask(ts(t), rng.choice(syms))
             except Exception:
                 pass
+        # ... including the session's own instants expressed in other time zones (equal instants hash and compare equal)
+        d0_ = case['start'] // 86400
+        for k in range(0, 40):
+            for tod in (OPEN, CLOSE):
+                T = ts((d0_ + k) * 86400 + tod).tz_convert(rng.choice(['America/New_York', 'Asia/Tokyo', 'Europe/London']))
+                for a in syms:
+                    try:
+                        ds.get_bid(T, a)
+                        ds.get_ask(T, a)
+                    except Exception:
+                        pass
         r3 = k7_real.run_session(case, data_dir=d, data_source=ds)
         runs['source-reused-after-queries'] = k7_real.digest(r3)[0]
         r4 = k7_real.run_session(case, data_dir=d, data_source=ds)
